@@ -236,9 +236,11 @@ impl Writer {
             if sri.matches(&writer_sri).is_none() {
                 return Err(ssri::Error::IntegrityCheckError(sri.clone(), writer_sri).into());
             }
-        } else {
-            self.opts.sri = Some(writer_sri.clone());
         }
+        // Index the entry under the address the content was stored at. A
+        // declared integrity may list several hashes; only the computed one
+        // is guaranteed to name the content file.
+        self.opts.sri = Some(writer_sri.clone());
         if let Some(size) = self.opts.size {
             if size != self.written {
                 return Err(Error::SizeMismatch(size, self.written));
@@ -590,9 +592,11 @@ impl SyncWriter {
             if sri.matches(&writer_sri).is_none() {
                 return Err(ssri::Error::IntegrityCheckError(sri.clone(), writer_sri).into());
             }
-        } else {
-            self.opts.sri = Some(writer_sri.clone());
         }
+        // Index the entry under the address the content was stored at. A
+        // declared integrity may list several hashes; only the computed one
+        // is guaranteed to name the content file.
+        self.opts.sri = Some(writer_sri.clone());
         if let Some(size) = self.opts.size {
             if size != self.written {
                 return Err(Error::SizeMismatch(size, self.written));
